@@ -290,10 +290,11 @@ Definition put_item (c : client) (table : str) (it : item) (cond : option str) (
   | inl e => (c, err_obs e)
   | inr t =>
       match t_put lang_match (ctx_of c) t it cond names vals with
-      | (t', Ok f) => (set_table c t', ok_obs PNone f)
-      | (_, Err e) => (c, err_obs e)
-      | (_, Panic p) => (c, panic_obs p)
-      | (_, OutOfFuel) => (c, fuel_obs)
+      | (t', WOk _ f) => (set_table c t', ok_obs PNone f)
+      | (_, WCondFailed _ f) => (c, {| o_res := RErr CondFailed; o_pay := PNone; o_fired := f |})
+      | (_, WErr e) => (c, err_obs e)
+      | (_, WPanic p) => (c, panic_obs p)
+      | (_, WFuel) => (c, fuel_obs)
       end
   end.
 
@@ -313,18 +314,18 @@ Definition update_item (c : client) (table : str) (key : item) (expr : str) (con
   | inl e => (c, err_obs e)
   | inr t =>
       match t_update lang_match lang_update (ctx_of c) t key expr cond names vals with
-      | (t', UOk it f) => (set_table c t', ok_obs (PItem (out_item flavour it)) f)
-      | (_, UCondFailed old) =>
+      | (t', WOk it f) => (set_table c t', ok_obs (PItem (out_item flavour (match it with Some i => i | None => [] end))) f)
+      | (_, WCondFailed old f) =>
           (c, {| o_res := RErr CondFailed;
                  o_pay := match flavour with
                           | V2 => PCondItem (if all_old then out_item V2 old else [])
                           | V1 => PNone
                           end;
-                 o_fired := [] |})
-      | (_, UErr Syntax) => (c, err_obs Validation)
-      | (_, UErr e) => (c, err_obs e)
-      | (_, UPanic p) => (c, panic_obs p)
-      | (_, UFuel) => (c, fuel_obs)
+                 o_fired := f |})
+      | (_, WErr Syntax) => (c, err_obs Validation)
+      | (_, WErr e) => (c, err_obs e)
+      | (_, WPanic p) => (c, panic_obs p)
+      | (_, WFuel) => (c, fuel_obs)
       end
   end.
 
@@ -334,7 +335,7 @@ Definition delete_item (c : client) (table : str) (key : item) (cond : option st
   | inl e => (c, err_obs e)
   | inr t =>
       match t_delete lang_match (ctx_of c) t key cond names vals with
-      | (t', Ok (old, f)) =>
+      | (t', WOk old f) =>
           (set_table c t',
            ok_obs (if return_old
                    then match old, flavour with
@@ -343,9 +344,10 @@ Definition delete_item (c : client) (table : str) (key : item) (cond : option st
                         | None, V1 => PNone         (* the v1 mapper keeps a nil map nil *)
                         end
                    else PNone) f)
-      | (_, Err e) => (c, err_obs e)
-      | (_, Panic p) => (c, panic_obs p)
-      | (_, OutOfFuel) => (c, fuel_obs)
+      | (_, WCondFailed _ f) => (c, {| o_res := RErr CondFailed; o_pay := PNone; o_fired := f |})
+      | (_, WErr e) => (c, err_obs e)
+      | (_, WPanic p) => (c, panic_obs p)
+      | (_, WFuel) => (c, fuel_obs)
       end
   end.
 
